@@ -234,13 +234,21 @@ def typedLen (t : Typed) : DType → U
   | .double => t.doubles
   | .unsupported | .missing => 0
 
+/-- Which `DataLoader` resolves external data. -/
+inductive LoaderKind where
+  | mem | mmap | file
+  deriving DecidableEq, Repr
+
 /-- The data-location part of a `TensorProto`. -/
 inductive Ext where
   | none                           -- `data_location` absent or DEFAULT
   | badLocation                    -- a `data_location` other than DEFAULT / EXTERNAL
   | badMeta                        -- `external_data_location` failed
   | loadErr                        -- the `DataLoader` refused the path (not found / not allowed)
-  | ref (length offset bufLen : U) -- `offset`/`length` into a registered buffer of `bufLen` bytes
+  /-- `offset`/`length` into an external data file / registered buffer of `bufLen` bytes, resolved
+  by the loader of the entry point used: `MemLoader` (`load`), `MmapLoader` (`load_mmap`),
+  `FileLoader` (`load_file`) -/
+  | ref (kind : LoaderKind) (length offset bufLen : U)
   deriving DecidableEq, Repr
 
 structure OnnxInit where
@@ -267,16 +275,33 @@ structure ExtSlice where
   bufLen : Nat
   deriving DecidableEq, Repr
 
-/-- Data location + `DataLoader::load` (`MemLoader`: C21's `ExtData.memRange`). -/
+/-- Data location + `DataLoader::load`, on C21's models of the three loaders:
+`MemLoader` (`ExtData.memRange`), `MmapLoader` (`ExtData.mmapRange`: same check, but the range
+end is recomputed as `offset as usize + length as usize`), `FileLoader` (`ExtData.fileRead` into
+a fresh buffer; the `DataSlice` is `0..bytes.len()` of that buffer). -/
 def loadExt : Ext → Except ErrC (Option ExtSlice)
   | .none => .ok none
   | .badLocation => .error .location
   | .badMeta => .error .extmeta
   | .loadErr => .error .extdata
-  | .ref len off buf =>
+  | .ref .mem len off buf =>
     match ExtData.memRange off.toNat len.toNat buf.toNat with
     | .error _ => .error .extdata
     | .ok (s, e) => .ok (some ⟨s, e, buf.toNat⟩)
+  | .ref .mmap len off buf =>
+    match ExtData.mmapRange off.toNat len.toNat buf.toNat with
+    | .error _ => .error .extdata
+    | .ok (s, e) => .ok (some ⟨s, e, buf.toNat⟩)
+  | .ref .file len off buf =>
+    match ExtData.fileRead (List.replicate buf.toNat 0) off.toNat len.toNat with
+    | .error _ => .error .extdata
+    | .ok bytes => .ok (some ⟨0, bytes.length, bytes.length⟩)
+
+/-- `MmapLoader::load` computes the range end with a plain `+` (external_data.rs:449): with
+overflow checks that is a panic when `offset + length` does not fit in `usize`. -/
+def extAddPanics (ovf : Bool) : Ext → Bool
+  | .ref .mmap len off _ => ovf && decide (wordSize ≤ off.toNat + len.toNat)
+  | _ => false
 
 /-- `DataSlice::data()` = `&self.storage.data()[self.bytes.clone()]`: `(length, offset)` of the
 byte slice, `none` = the slice index panics. -/
@@ -335,7 +360,9 @@ def convCount (n : U) (raw : Option U) (ext : Option ExtSlice) (typed : U) : Cnt
       | some (bytes, _) => .n (bytes / n)
     | none => .n typed
 
-/-- Capacity of `Vec::with_capacity(n)` (at least `n`). -/
+/-- Capacity of `Vec::with_capacity(n)`.  The allocator contract (capacity ≥ n) is ASSUMED here
+by taking the capacity to be exactly `n`; the `spare_capacity[..n]` guard below is therefore a
+restated contract, not a proved fact (listed in `modelled_not_verified`). -/
 def vecCapacity (n : U) : U := n
 
 /-- Element count of `convert_f16_constant`: `external_data.map(|d| d.data())` is evaluated
@@ -380,7 +407,8 @@ def loadConstant (ovf : Bool) (c : OnnxInit) : Outcome :=
   | some shape =>
     match loadExt c.ext with
     | .error e => .err e
-    | .ok ext => finish ovf shape (onnxCount c ext)
+    | .ok ext =>
+      if extAddPanics ovf c.ext then .panic else finish ovf shape (onnxCount c ext)
 
 /-- Size in bytes of one *source* element of a byte-backed initializer. -/
 def srcElemSize : DType → Nat
